@@ -18,7 +18,7 @@ Definition out_entries (es : list (Z * erec)) (n : Z) : list (Z * Z) :=
 Definition in_entries (es : list (Z * erec)) (n : Z) : list (Z * Z) :=
   filter_map (fun p => if e_dst (snd p) =? n then Some (e_src (snd p), fst p) else None) es.
 
-(** C14-K2: the history deletes a node that still has live incident edges without detaching them,
+(** C14-K8 (the store-level part of the former K2): the history deletes a node that still has live incident edges without detaching them,
     or creates an edge whose endpoint is not a live node *)
 Definition has_live_incident (s : state) (n : Z) : bool :=
   existsb (fun p => (e_src (snd p) =? n) || (e_dst (snd p) =? n)) (live_edges s).
@@ -39,62 +39,22 @@ Definition op_sets_dead (s : state) (o : op) : bool :=
   end.
 Definition hist_sets_dead : state -> list op -> bool := hist_any op_sets_dead.
 
-(** C14-K4 / K5: zone-map pruning claims "no match" although a stored value matches *)
-Definition is_big_int (v : value) : bool :=
-  match v with VInt i => 9007199254740992 <=? Z.abs i | _ => false end.       (* 2^53 *)
-Definition is_float (v : value) : bool := match v with VFloat _ => true | _ => false end.
-Definition opt_list {A} (o : option A) : list A := match o with Some a => [a] | None => [] end.
-Definition col_values (c : column) : list value :=
-  map snd (c_vals c) ++ opt_list (z_min (c_zone c)) ++ opt_list (z_max (c_zone c)).
-(** K4: an Int64 of magnitude >= 2^53 meets a Float64 among the column's values, its bounds and the
-    query value, and the comparison is strict *)
-Definition k_zone_round_col (c : column) (o : cmpop) (q : value) : bool :=
-  match o with
-  | OpLt | OpGt => existsb is_big_int (q :: col_values c) && existsb is_float (q :: col_values c)
-  | _ => false
-  end.
-(** K5 (repaired by 1879631; class of the pre-repair behaviour): [Ne] pruning on a column that holds -- or whose min/max bounds still hold -- a non-null value
-    of another type than the query value, or a NaN *)
-Definition odd_for_ne (q x : value) : bool :=
-  negb (is_null x) && (negb (vtag x =? vtag q) || match x with VFloat b => f64_is_nan b | _ => false end).
-Definition k_zone_ne_col (c : column) (o : cmpop) (q : value) : bool :=
-  match o with
-  | OpNe => existsb (odd_for_ne q) (col_values c)
-  | _ => false
-  end.
-(** K4 for a range lookup: a strict bound is pruned through the same comparison *)
-Definition k_range_round_col (c : column) (lo hi : option value) (li hi_i : bool) : bool :=
-  (match lo with Some l => negb li && k_zone_round_col c OpGt l | None => false end)
-  || (match hi with Some h => negb hi_i && k_zone_round_col c OpLt h | None => false end).
-(** the classes on a property storage (node or edge properties): K4 alone for the current code,
-    K4 and K5 for the behaviour before fix 1879631 *)
-Definition ps_round_class (p : pstore) (key : Z) (o : cmpop) (q : value) : bool :=
-  match zget p key with Some c => k_zone_round_col c o q | None => false end.
-Definition ps_zone_class (p : pstore) (key : Z) (o : cmpop) (q : value) : bool :=
-  match zget p key with Some c => k_zone_round_col c o q || k_zone_ne_col c o q | None => false end.
-Definition ps_range_class (p : pstore) (key : Z) (lo hi : option value) (li hi_i : bool) : bool :=
-  match zget p key with Some c => k_range_round_col c lo hi li hi_i | None => false end.
+(** C14-K4 / K5 / K7 are repaired (c5e300e, 1879631, 2e121d0): their classes are gone; the
+    pre-repair behaviour is kept in Model.v / Value.v ([cmp_zone_pre], [col_might_match_pre_k4],
+    [col_might_match_pre_k5], [step_pre_k7]) and refuted in Props_C14.v. *)
 
-(** C14-K7: a label was added/removed while the statistics were considered fresh; the next
-    refresh does not recompute *)
-Definition op_label_unflagged (s : state) (o : op) : bool :=
-  match o with
-  | AddLabel _ _ | RemoveLabel _ _ =>
-      negb (stats_dirty s) && match snd (step s o) with RBool true => true | _ => false end
-  | _ => false
+(** * GrafeoDB-level histories: delete_node through the wrapper detaches (fix 109e5bf); what can
+    still leave a dangling edge is a store-level operation of the class above *)
+Definition dop_dangles (s : state) (d : dop) : bool :=
+  match d with
+  | Basic o => op_dangles s o
+  | DbDeleteNode _ => false
   end.
-Definition hist_label_unflagged : state -> list op -> bool := hist_any op_label_unflagged.
-
-(** * well-formed property values: a Float64 is a 64-bit pattern (the model keeps bit patterns as
-    unbounded integers); needed only where two floats with the same exact value must be the same
-    or the two zeros *)
-Definition value_wf (v : value) : Prop := match v with VFloat b => in_u64 b | _ => True end.
-Definition op_vals_wf (o : op) : Prop :=
-  match o with
-  | SetNodeProp _ _ v | SetEdgeProp _ _ v => value_wf v
-  | _ => True
+Fixpoint dhist_dangles (s : state) (ds : list dop) : bool :=
+  match ds with
+  | [] => false
+  | d :: r => dop_dangles s d || dhist_dangles (fst (dstep s d)) r
   end.
-Definition hist_vals_wf (ops : list op) : Prop := Forall op_vals_wf ops.
 
 (** * well-formed histories: the ids an operation mentions are u64 values and the history is
     shorter than 2^64 operations (so that the id counters never wrap) *)
